@@ -192,7 +192,8 @@ class World:
         # a response's remote is a new address object of the same transport (the transport's maximum
         # exponent: 6, or 7 on a transport that does BERT; same maximum payload size) or the very object
         # of the request
-        remote = (self.Remote(7 if self.transport_bert else None, req.remote.maximum_payload_size)
+        remote = (self.Remote(7 if self.transport_bert else None,
+                              self.mps_after or req.remote.maximum_payload_size)
                   if self.fresh_remote else req.remote)
         # like the token manager: a response with an Observe option to a request with one is not the last
         is_last = reply.observe is None or req.opt.observe is None
@@ -239,6 +240,9 @@ class World:
         self.runaway = False
         self.transport_bert = case["szx0"] == 7
         self.fresh_remote = case.get("fresh_remote", True)
+        # the remote's limits as they are from the first response on (the peer's CSM arriving on a fresh connection of
+        # a reliable transport raises them); such cases are judged by the oracle only
+        self.mps_after = case.get("mps_after")
         outcome = self.loop.run_until_complete(self._transfer(case))
         return {"reqs": self.reqs, "replies": self.replies, "outcome": outcome,
                 "server": self.server}
@@ -368,9 +372,10 @@ def oracle(case, obs):
             # a BERT block: one or more whole KiB while more follow, never more than the remote takes
             if data != payload[off:off + len(data)] or (not data and payload):
                 return "BERT Block1 request %d does not carry payload[%d:%d]" % (i, off, off + len(data)), "wire:b1-bytes"
-            if len(data) > case["mps"]:
+            limit = case["mps"] if i == 0 or case.get("mps_after") is None else case["mps_after"]
+            if len(data) > limit:
                 return ("BERT Block1 request %d carries %d bytes, the remote's maximum payload size is %d"
-                        % (i, len(data), case["mps"])), "wire:b1-bert-too-long"
+                        % (i, len(data), limit)), "wire:b1-bert-too-long"
         elif data != payload[off:off + size]:
             return "Block1 request %d does not carry payload[%d:%d]" % (i, off, off + size), "wire:b1-bytes"
         if more != (off + len(data) < len(payload)):
@@ -495,7 +500,7 @@ def is_success(code):
 # ------------------------------------------------------------------------------------------
 def mk(plen=0, rlen=0, szx0=6, mps=1124, choices=(), default=(6, False), etag="c0ffee", code=69,
        mis=None, limit=None, pseed=1, rseed=2, method="PUT", fresh_remote=True, observe=False,
-       obs_final=None, hint1=None, hint2=None, bert=None):
+       obs_final=None, hint1=None, hint2=None, bert=None, mps_after=None):
     c = {"plen": plen, "pseed": pseed, "rlen": rlen, "rseed": rseed, "etag": etag, "code": code,
          "szx0": szx0, "mps": mps, "choices": [list(x) for x in choices], "default": list(default),
          "method": method, "fresh_remote": fresh_remote}
@@ -510,6 +515,8 @@ def mk(plen=0, rlen=0, szx0=6, mps=1124, choices=(), default=(6, False), etag="c
         c["limit"] = limit
     if bert is not None:
         c["bert"] = bert             # the server is a BERT peer: it uses exponent 7 itself, blocks of `bert` KiB
+    if mps_after is not None:
+        c["mps_after"] = mps_after   # the remote's maximum payload size from the first response on
     if hint2 is not None:
         c["hint2"] = hint2           # the application's request carries block2=(0, False, hint2)
     if hint1 is not None:
@@ -716,6 +723,13 @@ def bert_cases():
             for ch, d in (((), (7, False)), (((7, False), (6, False)), (6, False)),
                           (((7, False), (7, False), (4, False)), (4, False)), (((7, False), (2, False)), (2, False))):
                 cases.append(mk(plen=L, rlen=5, szx0=7, mps=mps, choices=ch, default=d, code=68, bert=2))
+    # the remote's limits grow after the first exchange (a fresh connection: the peer's CSM arrives): a transfer that
+    # has begun in blocks goes on in blocks (oracle only)
+    for L in (1125, 2048, 2049, 3000, 4196, 5000):
+        for after in (2148, 4196, 1152 + 65536):
+            for ch, d, bert in (((), (7, False), 4), (((6, False),), (6, False), None)):
+                cases.append(mk(plen=L, rlen=5, szx0=7, mps=1124, mps_after=after, choices=ch, default=d, code=68,
+                                bert=bert))
     # downloads to a BERT client: from servers with exponents 0..6, from BERT peers (blocks of 1, 2, 4 KiB) that
     # keep 7 or go down to 6 / 3 in mid-transfer
     for L in BERT_LENGTHS:
@@ -978,6 +992,9 @@ def run(env, rep):
             verdict, key = oracle(case, obs)
             if verdict:
                 rep.oracle_fail(case, verdict, key=key)
+            if case.get("mps_after") is not None:
+                rep.count("limits-grow-after-first-exchange")
+                continue                  # (the model's remote has constant limits)
             rl.append(r_line(case, obs)); ro.append(r_out(obs)); rc.append(case)
             if (kind is None or kind == "stall") and case.get("bert") is None:
                 # (the Lean reference server's own exponents are 0..6; BERT peers are judged by the oracle and
